@@ -414,6 +414,14 @@ class ProgGen(object):
         if self.top_loop and not self.in_fun:
             # known finding (C02/C03/C12): at -Q2+ the emerge pass loses record field stores in file-level loops
             asg = [(x, vt) for (x, vt) in asg if not (isinstance(vt, list) and vt[0] == "rec")]
+        if "halt" in self.emph and "halt" in self.feat and self.in_fun and not self.pure_mode and not self.in_gen \
+                and not self.in_try and r.random() < 0.3:
+            # (emphasis) a guarded halt anywhere a statement may stand in an effectful function
+            hc = self.expr(BOOL, scope, max(d - 1, 0))
+            if r.random() < 0.4:
+                hc = {"e": "or", "a": hc, "b": {"e": "bool", "b": True}}
+            return {"e": "if", "c": hc, "a": {"e": "error", "msg": "halt%d" % r.randint(0, 99)},
+                    "b": {"e": "unit"}, "t": UNIT}
         choices = ["print"] * 3 if not self.pure_mode else []
         if asg:
             choices += ["asg"] * 4
@@ -438,8 +446,11 @@ class ProgGen(object):
             choices += ["yield"] * 3
         if self.exns and not self.pure_mode and self.in_fun and not self.in_gen and d > 0 and r.random() < 0.4:
             choices += ["throw"] * (4 if "try" in self.emph else 1)
-        if "halt" in self.feat and not self.pure_mode and self.in_fun and not self.in_gen and d > 0 and r.random() < 0.3:
-            choices += ["halt"]
+        if "halt" in self.feat and not self.pure_mode and self.in_fun and not self.in_gen and d > 0 \
+                and (r.random() < 0.3 or "halt" in self.emph):
+            choices += ["halt"] * (max(2, len(choices) // 4) if "halt" in self.emph else 1)
+        if "assert" in self.feat and not self.pure_mode and self.in_fun and not self.in_gen and r.random() < 0.9:
+            choices += ["assert"] * max(2, len(choices) // 3)       # opt-in feature (not in ALL_FEATURES): C03's abnormal-end family
         for x, (vt, a) in allv.items():
             if isinstance(vt, list) and not self.pure_mode:
                 if vt[0] == "arr" and x in self.arrlen:
@@ -447,7 +458,7 @@ class ProgGen(object):
                 if vt[0] == "rec" and not (self.top_loop and not self.in_fun):
                     choices += [("rset", x)] * (4 if "store" in self.emph else 1)
         if self.funs and d > 0 and not self.pure_mode:
-            choices.append("callstmt")
+            choices += ["callstmt"] * (max(3, len(choices) // 3) if "call" in self.emph else 1)   # (emphasis) effectful functions get called
         if not choices:
             choices = ["if"] if d > 0 and not nocond and self.in_fun else ["nop"]
         c = r.choice(choices)
@@ -542,10 +553,22 @@ class ProgGen(object):
         if c == "halt":
             return {"e": "if", "c": self.expr(BOOL, scope, d - 1), "a": {"e": "error", "msg": "halt%d" % r.randint(0, 99)},
                     "b": {"e": "unit"}, "t": UNIT}
+        if c == "assert":
+            cond = self.expr(BOOL, scope, d - 1)
+            u = r.random()
+            if u < 0.4:                     # many assertions hold whatever the condition says, some fail whatever it says
+                cond = {"e": "or", "a": cond, "b": {"e": "bool", "b": True}}
+            elif u < 0.55:
+                cond = {"e": "and", "a": cond, "b": {"e": "bool", "b": False}}
+            return {"e": "assert", "c": cond, "t": UNIT}
         if c == "yield":
             return {"e": "yield", "v": self.rhs(self.in_gen, scope, d)}
         if c == "callstmt":
             fi = r.randrange(len(self.funs))
+            if "call" in self.emph:
+                eff = [k for k, f in enumerate(self.funs) if not f.get("pure") and self.here(f)]
+                if eff:
+                    fi = r.choice(eff)
             if not self.here(self.funs[fi]):
                 return self.stmt(scope, 0)
             return self.call(fi, scope, d)
